@@ -7,10 +7,13 @@ import (
 	"errors"
 	"fmt"
 	"math/rand"
+	"os"
+	"os/signal"
 	"strconv"
 	"strings"
 	"sync"
 	"sync/atomic"
+	"syscall"
 	"testing"
 	"time"
 )
@@ -29,6 +32,8 @@ import (
 //	             dl (context.WithDeadline(start+p), math/rand seeded with k when jitter is on) |
 //	             midwait (cancel p ns after call k returned) | midwaitDL (same, a context whose Err is
 //	             DeadlineExceeded and that reports no deadline) | deadline (context.WithDeadline(start+p))
+//	             sigF/INT | sigF/TERM (the process receives SIGINT / SIGTERM inside call k; RetrySome and Retry end like a
+//	             cancelled context; the harness keeps its own handler registered so that the process survives)
 //	    -> "<calls> <nil|err|more|nonferror> <main> <is-bits> <n others> <others...>"
 //	    prun lines are run concurrently (they mostly sleep), before all other lines
 //	draws <seed> <cnt>    the values rand.Int63n(1<<a) yields for a = 1..cnt after rand.Seed(seed)
@@ -42,7 +47,27 @@ var (
 	c18Overrun   = errors.New("history exhausted")
 )
 
+// the harness's own handler for the signals RetrySome listens to: registered for the life of the process, so that a signal
+// raised by a sigF scenario is never left to the default action
+var c18SigKeep = make(chan os.Signal, 64)
+
+func c18Raise(which string) {
+	sig := syscall.SIGINT
+	if which == "TERM" {
+		sig = syscall.SIGTERM
+	}
+	for len(c18SigKeep) > 0 {
+		<-c18SigKeep
+	}
+	_ = syscall.Kill(os.Getpid(), sig)
+	select { // the runtime has delivered it to every registered channel once ours has it
+	case <-c18SigKeep:
+	case <-time.After(2 * time.Second):
+	}
+}
+
 func init() {
+	signal.Notify(c18SigKeep, syscall.SIGINT, syscall.SIGTERM)
 	for i := range c18User {
 		c18User[i] = fmt.Errorf("user error %d", i)
 	}
@@ -285,6 +310,8 @@ func c18Run1(f []string) string {
 			switch kind {
 			case "inF":
 				endCtx()
+			case "sigF":
+				c18Raise(flavour)
 			case "midwait", "midwaitDL":
 				if endCtx != nil {
 					time.AfterFunc(time.Duration(p), endCtx)
